@@ -164,7 +164,7 @@ CLAIMED = {
         "cross-compared, model rendering compared.",
         "Trusted: as C03. What a missing cell holds (sentinel possibly truncated by an integer region) is not part of the "
         "property and is not compared.",
-        "Lean 4 proof (decision logic over counters) + cross-format correspondence",
+        "Lean 4 proof (decision logic over counters) + cross-format correspondence + missing-cell decisions of all reduce methods regenerated from the source (translator) and proved to be the model's",
         "DESIGN.md §5 C04"),
     "C05": (
         "Lean 4 theorems: every aggregate of the index cube is a function of the dense content of its dimensions only "
@@ -226,7 +226,7 @@ CLAIMED = {
         "parameters; variance and weighted-quantile models are tied by correspondence on the rows of each cell; the "
         "statistics are recomputed per cell with NumPy on the real code's outputs (oracle), formats cross-compared.",
         "Trusted: Lean kernel + Mathlib order lemmas on Q; NumPy's per-bin statistics; float tolerance 1e-9.",
-        "Lean 4 proof (bin partition, decision logic, scale invariance; partial) + per-cell recomputation on the real code",
+        "Lean 4 proof (bin partition, decision logic, scale invariance; partial) + per-cell recomputation on the real code + stddev missing rule regenerated from xfunc_stddev.reduce (translator)",
         "DESIGN.md §5 C18"),
 }
 PENDING = {}
